@@ -20,6 +20,7 @@ def run(ck, progs):
     ck.rule("C01.6", "event construction: msg_allocator_pack stores receiver / timestamp / type in the fields of their role and copies exactly the declared payload; ScheduleNewEvent forwards its five parameters position by position")
     for cfg, P in progs.items():
         rules_msg.check_pack(ck, P, "C01.6")
+        R.check_rollback_ranges(ck, P, "C01.1")
         R.check_pipeline(ck, P, "C01.1")
         rules_index.check_rollback_index(ck, P, "C01.2")
         rules_index.check_bound_prefilter(ck, P, "C01.5")
